@@ -12,7 +12,7 @@ MAGIC_DOC = bytes([0x41, 0x4D, 0x5A, 0x4E, 0x43, 0x42, 0x02, 0x00])
 
 
 def run(ctx, chk):
-    fb = ctx.facts('dev')
+    fb = ctx.facts()
     chk.explanation = ('V1/V2: decision list of the open path: each check (open, read, short read, magic, version, generation, '
                        'declared size >= header, mmap, declared size >= header+record) with the error kind its failure yields, and '
                        'an Ok path that passes all of them. V3: the record pointer is formed only after the header+record size test. '
